@@ -30,6 +30,11 @@ def _quotient_bounds(st, c, n):
     return z3.Implies(st > 0, z3.And(z3.Implies(q <= n, c <= (n + 1) * st), z3.Implies(n - 1 < q, n * st < c)))
 
 
+@lemlib.lemma("quotient-times-divisor", 2)
+def _quot_times(a, q):
+    return z3.Implies(q != 0, (a / q) * q == a)
+
+
 @lemlib.lemma("degrees-times-pi", 2)
 def _deg_pi(x, pi):
     return z3.Implies(pi != 0, (x * 180 / pi) * pi == 180 * x)
@@ -1414,7 +1419,17 @@ def register_topology_features(R, H):
                        ("value-k-is-the-sum-of-consecutive-node-distances-of-listed-chain-k", per_chain(field, ccls, "length"))] + common
               + ([("cold-cache:branch-lengths-sum-to-the-tree-length-the-sum-of-parent-child-distances", sums_to_tree_length)] if cls is BranchFeatures else []),
               notes=SIZE_NOTE)
-        R.add(f"{FEAT}:{nm}.get_tortuosity", prop="C10", variants=variants_of(cls, field, ccls), options=dict(inline_calls=INLINE),
+        def tort_hint(E, vars, _field=field, _ccls=ccls):
+            """proof step per listed chain: (chord / length) * length = chord when the length is not zero (lemma instance)"""
+            slf = vars.get("self")
+            got = node_lists(slf.fields.get(_field), slf.fields["tree"], _ccls, concrete=False) if isinstance(slf, Obj_) else None
+            if got:
+                g = Geo(E, slf.fields["tree"])
+                for nodes in got:
+                    lemlib.use(E, "quotient-times-divisor", g.d(nodes[-1], nodes[0]), g.chain_len(nodes))
+
+        R.add(f"{FEAT}:{nm}.get_tortuosity", prop="C10", variants=variants_of(cls, field, ccls),
+              options=dict(inline_calls=INLINE, hints={f"post/cold-cache:multiset-of-the-tortuosities-of-the-textbook-{key}": tort_hint}),
               ensures=[(f"cold-cache:multiset-of-the-tortuosities-of-the-textbook-{key}", multiset("tortuosity", want, field)),
                        ("value-k-is-chord-over-length-of-listed-chain-k-or-one-for-zero-length", per_chain(field, ccls, "tortuosity"))] + common,
               notes=SIZE_NOTE)
@@ -1451,13 +1466,14 @@ def register_topology_features(R, H):
             if not isinstance(vec, NArr) or br is None:
                 return
             ends, t = ends_of(br), get_tree(vars, br)
+            u = [[to_z3(vec.items[3 * i + k], "real") for k in range(3)] for i in range(len(ends))]
             g = Geo(E, t)
             zi = lambda a: to_z3(a, "int")
             for i, (si, ei) in enumerate(ends):
                 for j, (sj, ej) in enumerate(ends):
                     if j < i:
                         continue
-                    dz = sum((to_z3(vec.items[3 * i + k], "real") * to_z3(vec.items[3 * j + k], "real") for k in range(3)), z3.RealVal(0))
+                    dz = sum((u[i][k] * u[j][k] for k in range(3)), z3.RealVal(0))
                     poly = d2(g.ta, zi(ei), zi(sj)) + d2(g.ta, zi(si), zi(ej)) - d2(g.ta, zi(ei), zi(ej)) - d2(g.ta, zi(si), zi(sj))
                     E.prove(f"BranchFeatures.calc_angle/step/polarisation-identity-{i}-{j}", 2 * dz == poly, "proof step")
                     E.prove(f"BranchFeatures.calc_angle/step/dot-product-{i}-{j}-through-the-four-distances", dz == dot_through_d2(g, si, ei, sj, ej), "proof step")
@@ -1490,7 +1506,7 @@ def register_topology_features(R, H):
     def ga_variants():
         out = {}
         for p in TOPOS + BIGGER:
-            if len(p) >= 2:
+            if len(p) >= 2 and p != [-1, 0, 0, 1, 1, 2]:  # that shape has four branches from two start points: 16 entries, ~6 s -- left to calc_angle (any 3 branches)
                 out["cold-cache,default-eps," + pname(p)] = (lambda S, _p=p: dict(self=S.obj(BranchFeatures, tree=topo_tree(S, _p))))
         for p in ([-1, 0, 0, 1], [-1, 0, 1, 1]):
             out["cold-cache,any-positive-eps," + pname(p)] = (lambda S, _p=p: dict(self=S.obj(BranchFeatures, tree=topo_tree(S, _p)), eps=S.real("eps")))
@@ -1502,7 +1518,7 @@ def register_topology_features(R, H):
           options=dict(inline_calls=INLINE, hints={"post/" + LBL2: angle_hint(lambda vars: vars["self"].fields.get("_branches") if isinstance(vars.get("self"), Obj_) else None,
                                                                              lambda vars, br: vars["self"].fields["tree"])}),
           ensures=[("cold-cache-is-filled-with-exactly-the-textbook-branches", listed("_branches", Tree.Branch, Topo.branches)), (LBL2, ga_post)],
-          notes="every labelled rooted tree of 2-4 nodes and 4 shapes of 6-7 nodes (a single node has no branch: the numpy calls raise, outside); default eps 1e-7 or any eps > 0")
+          notes="every labelled rooted tree of 2-4 nodes and 3 shapes of 6-7 nodes (a single node has no branch: the numpy calls raise, outside); default eps 1e-7 or any eps > 0")
 
     # ------------------------------------------------ NodeFeatures.get_branch_order
     from swcgeom.analysis.features import FurcationFeatures, NodeFeatures, TipFeatures
